@@ -34,9 +34,16 @@ func (k Keeper) EndBlocker(ctx sdk.Context) {
 		// If any of the weights is changed to value different then 1, then token rates should be recalculated accordingly, that is for each token `x`
 		// in `token-deposits` table, the
 		// `new_token_rate(x) = ( ( token_deposits(x) /  (dynamic_rate_period * weights_sum))`
+		// a zero period, a period beyond int64 or a negative total weight cannot yield a rate:
+		// dividing by it (or building a negative DecCoin) would panic and halt the chain
+		denominator := sdk.NewDec(int64(pool.DynamicRatePeriod)).Mul(totalWeight)
+		if !denominator.IsPositive() {
+			continue
+		}
+
 		poolRates := sdk.DecCoins{}
 		for _, deposit := range pool.Balances {
-			rate := sdk.NewDecFromInt(deposit.Amount).Quo(sdk.NewDec(int64(pool.DynamicRatePeriod)).Mul(totalWeight))
+			rate := sdk.NewDecFromInt(deposit.Amount).Quo(denominator)
 			poolRates = poolRates.Add(sdk.NewDecCoinFromDec(deposit.Denom, rate))
 		}
 		pool.Rates = poolRates
